@@ -71,7 +71,15 @@ package operationparser
 //@   requires cfgOK(p)
 //@   ensures (result == nil) == (suffixData != nil && len(suffixData.RecoveryCommitment) <= p.MaxOperationHashLength && computedWith(suffixData.RecoveryCommitment, p.MultihashAlgorithms) && len(suffixData.DeltaHash) <= p.MaxOperationHashLength && computedWith(suffixData.DeltaHash, p.MultihashAlgorithms))
 //
-//@ spec patchValid(pt patch.Patch) bool
+//@ spec patchValid(pt patch.Patch) bool {
+//@     actionOK(pt) && (
+//@     (actionOf(pt) == "replace" && replaceValid(pt)) ||
+//@     (actionOf(pt) == "ietf-json-patch" && jsonPatchValid(pt)) ||
+//@     (actionOf(pt) == "add-public-keys" && addKeysValid(pt)) ||
+//@     (actionOf(pt) == "remove-public-keys" && removeKeysValid(pt)) ||
+//@     (actionOf(pt) == "add-services" && addServicesValid(pt)) ||
+//@     (actionOf(pt) == "remove-services" && removeServicesValid(pt)) ||
+//@     ((actionOf(pt) == "add-also-known-as" || actionOf(pt) == "remove-also-known-as") && akaValid(pt))) }
 //@ spec actionOK(pt patch.Patch) bool
 //@ spec actionOf(pt patch.Patch) patch.Action
 //@ func (*Parser).ValidateDelta
